@@ -17,6 +17,7 @@ import (
 	"fmt"
 	"io"
 	"os"
+	"reflect"
 	"strings"
 	"testing"
 	"testing/synctest"
@@ -71,6 +72,8 @@ type c01Env struct {
 	injRTCP  int
 	readData []byte
 	readErr  bool
+	appSnap  map[any]any // entries of the attributes the application passed with the op in progress
+	attrLost bool        // the bottom writer did not receive them
 }
 
 // closeErrOf builds the error a mock's Close returns from its code.
@@ -254,6 +257,56 @@ func c01ErrKinds(err error) string {
 	return strings.Join(kinds, "+")
 }
 
+// application-owned attribute keys of several kinds.  The library's own keys are of private types, so none of
+// these may ever collide with them, be changed, or make a read or write fail.
+type (
+	c01PrivKey struct{ name string }
+	c01IntKey  int
+)
+
+// c01AppAttrs builds the attributes map the application passes for `at=<k>` and a snapshot of its entries.
+func c01AppAttrs(at int) (interceptor.Attributes, map[any]any) {
+	var a interceptor.Attributes
+	switch at {
+	case 0:
+		return nil, nil
+	case 1:
+		a = interceptor.Attributes{}
+	case 2:
+		a = interceptor.Attributes{0: "rxq-3", 1: "eth0", 2: 7}
+	case 3:
+		a = interceptor.Attributes{"rtp": "x", "": 0, c01PrivKey{"a"}: []int{1, 2}, c01IntKey(0): "k0", c01IntKey(1): "k1"}
+	default:
+		a = interceptor.Attributes{
+			0: "rxq-3", 1: "eth0", int64(0): 1.5, int64(1): "i64", uint8(0): "u8", uint8(1): true, uint32(1): nil,
+			"0": "s0", "1": "s1", c01PrivKey{}: "priv", c01IntKey(0): 10, c01IntKey(1): 11, true: "b", [2]int{0, 1}: "arr",
+		}
+	}
+	snap := map[any]any{}
+	for k, v := range a {
+		snap[k] = v
+	}
+	return a, snap
+}
+
+// c01AttrsHold: every entry of the snapshot is in `a`, unchanged.
+func c01AttrsHold(a interceptor.Attributes, snap map[any]any) bool {
+	for k, v := range snap {
+		got, ok := a[k]
+		if !ok || !reflect.DeepEqual(got, v) {
+			return false
+		}
+	}
+	return true
+}
+
+func c01At(m map[string]string, opi int) int {
+	if m["at"] != "" {
+		return atoi(m["at"])
+	}
+	return (opi + 1) % 2 // ops files written before `at=` existed: nil / empty map in turn
+}
+
 type c01Stream struct {
 	info   *interceptor.StreamInfo
 	twID   uint8
@@ -386,8 +439,11 @@ func c01RunBubble(t *testing.T, ops []string, o *Out) { //nolint:gocognit,cyclop
 			}
 			switch name {
 			case "rtcpbind":
-				rtcpW = chain.BindRTCPWriter(interceptor.RTCPWriterFunc(func(pkts []rtcp.Packet, _ interceptor.Attributes) (int, error) {
+				rtcpW = chain.BindRTCPWriter(interceptor.RTCPWriterFunc(func(pkts []rtcp.Packet, ba interceptor.Attributes) (int, error) {
 					if env.isAppRTCP(pkts) {
+						if !c01AttrsHold(ba, env.appSnap) {
+							env.attrLost = true
+						}
 						raw, err := rtcp.Marshal(pkts)
 						if err != nil {
 							o.P("cb pk=err")
@@ -418,8 +474,11 @@ func c01RunBubble(t *testing.T, ops []string, o *Out) { //nolint:gocognit,cyclop
 					return
 				}
 				st := &c01Stream{info: info, twID: id}
-				st.writer = chain.BindLocalStream(info, interceptor.RTPWriterFunc(func(h *rtp.Header, p []byte, _ interceptor.Attributes) (int, error) {
+				st.writer = chain.BindLocalStream(info, interceptor.RTPWriterFunc(func(h *rtp.Header, p []byte, ba interceptor.Attributes) (int, error) {
 					if h != nil && h == env.curHdr {
+						if !c01AttrsHold(ba, env.appSnap) {
+							env.attrLost = true
+						}
 						c := h.Clone()
 						if hasHdrExt && st.twID != 0 {
 							if e := c.GetExtension(st.twID); len(e) == 2 {
@@ -482,14 +541,15 @@ func c01RunBubble(t *testing.T, ops []string, o *Out) { //nolint:gocognit,cyclop
 				}
 				env.bn, env.bf, env.ifl = atoi(m["bn"]), m["bf"] == "1", m["if"] == "1"
 				env.curHdr = h
-				var attrs interceptor.Attributes
-				if opi%2 == 0 {
-					attrs = interceptor.Attributes{}
-				}
+				attrs, snap := c01AppAttrs(c01At(m, opi))
+				env.appSnap, env.attrLost = snap, false
 				inj0 := env.injRTP
 				n, err := st.writer.Write(h, pl, attrs)
 				env.curHdr = nil
 				o.P("ret n=%d err=%s", n, c01ErrKinds(err))
+				if env.attrLost || !c01AttrsHold(attrs, snap) {
+					o.P("ATTR-CHANGED on write: the application's attribute entries did not reach the bottom writer unchanged")
+				}
 				if c01Diag && env.injRTP != inj0 {
 					o.P("# injected during this write: %d", env.injRTP-inj0)
 				}
@@ -511,12 +571,12 @@ func c01RunBubble(t *testing.T, ops []string, o *Out) { //nolint:gocognit,cyclop
 					data = data[:tr]
 				}
 				env.readData, env.readErr, env.bn = data, m["err"] == "1", atoi(m["bn"])
-				var attrs interceptor.Attributes
-				if opi%2 == 0 {
-					attrs = interceptor.Attributes{}
-				}
-				n, _, err := st.reader.Read(appBuf, attrs)
+				attrs, snap := c01AppAttrs(c01At(m, opi))
+				n, ret, err := st.reader.Read(appBuf, attrs)
 				c01PrintRead(o, "rd", n, err, appBuf)
+				if !c01AttrsHold(attrs, snap) || (err == nil && !c01AttrsHold(ret, snap)) {
+					o.P("ATTR-CHANGED on read: the application's attribute entries did not come back unchanged")
+				}
 			case "cw":
 				raw, ok := unhex(m["pk"])
 				if !ok || rtcpW == nil || m["bn"] == "" {
@@ -530,9 +590,18 @@ func c01RunBubble(t *testing.T, ops []string, o *Out) { //nolint:gocognit,cyclop
 				}
 				env.bn, env.bf = atoi(m["bn"]), m["bf"] == "1"
 				env.curPkts = pkts
-				n, err := rtcpW.Write(pkts, interceptor.Attributes{})
+				at := 1
+				if m["at"] != "" {
+					at = atoi(m["at"])
+				}
+				attrs, snap := c01AppAttrs(at)
+				env.appSnap, env.attrLost = snap, false
+				n, err := rtcpW.Write(pkts, attrs)
 				env.curPkts = nil
 				o.P("ret n=%d err=%s", n, c01ErrKinds(err))
+				if env.attrLost || !c01AttrsHold(attrs, snap) {
+					o.P("ATTR-CHANGED on rtcp write: the application's attribute entries did not reach the bottom writer unchanged")
+				}
 			case "cr":
 				raw, ok := unhex(m["data"])
 				if !ok || rtcpR == nil || m["bn"] == "" {
@@ -540,12 +609,12 @@ func c01RunBubble(t *testing.T, ops []string, o *Out) { //nolint:gocognit,cyclop
 					return
 				}
 				env.readData, env.readErr, env.bn = raw, m["err"] == "1", atoi(m["bn"])
-				var attrs interceptor.Attributes
-				if opi%2 == 0 {
-					attrs = interceptor.Attributes{}
-				}
-				n, _, err := rtcpR.Read(rtcpBuf, attrs)
+				attrs, snap := c01AppAttrs(c01At(m, opi))
+				n, ret, err := rtcpR.Read(rtcpBuf, attrs)
 				c01PrintRead(o, "crd", n, err, rtcpBuf)
+				if !c01AttrsHold(attrs, snap) || (err == nil && !c01AttrsHold(ret, snap)) {
+					o.P("ATTR-CHANGED on rtcp read: the application's attribute entries did not come back unchanged")
+				}
 			case "adv":
 				time.Sleep(time.Duration(atoi(m["ms"])) * time.Millisecond)
 			case "close":
@@ -876,7 +945,7 @@ func c01Gen(r *Rng, tier string, idx int) Case { //nolint:gocognit,cyclop,mainti
 			}
 			sentSeqs[g.ssrc] = append(sentSeqs[g.ssrc], uint16(h.Seq))
 			bn := r.Pick(len(pl), len(pl)+12, 0, 1500)
-			ops = append(ops, fmt.Sprintf("w s=%d %s pl=%s bn=%d bf=%d if=%d", s, h.String(), hexs(pl), bn, b01(r.Chance(1, faultP)), b01(r.Chance(1, faultP))))
+			ops = append(ops, fmt.Sprintf("w s=%d %s pl=%s bn=%d bf=%d if=%d at=%d", s, h.String(), hexs(pl), bn, b01(r.Chance(1, faultP)), b01(r.Chance(1, faultP)), r.Intn(5)))
 		case kind == 1 || kind == 4: // RTP read
 			s := r.Intn(nr)
 			g := rs[s]
@@ -942,7 +1011,7 @@ func c01Gen(r *Rng, tier string, idx int) Case { //nolint:gocognit,cyclop,mainti
 					}
 				}
 			}
-			ops = append(ops, fmt.Sprintf("r s=%d %s pl=%s trunc=%d ok=%d err=%d bn=%d", s, h.String(), hexs(pl), trunc, ok, b01(r.Chance(1, faultP)), r.Pick(0, 0, 7, 1500)))
+			ops = append(ops, fmt.Sprintf("r s=%d %s pl=%s trunc=%d ok=%d err=%d bn=%d at=%d", s, h.String(), hexs(pl), trunc, ok, b01(r.Chance(1, faultP)), r.Pick(0, 0, 7, 1500), r.Intn(5)))
 			if cl == "malformed" && trunc < 0 && r.Chance(1, 3) {
 				// the same packet again, cut inside its header: the application's buffer still holds the rest
 				hb, _ := rh.Marshal()
@@ -959,11 +1028,11 @@ func c01Gen(r *Rng, tier string, idx int) Case { //nolint:gocognit,cyclop,mainti
 				if _, err := ph.Unmarshal(wire[:cut]); err != nil {
 					ok2 = 0
 				}
-				ops = append(ops, fmt.Sprintf("r s=%d %s pl=%s trunc=%d ok=%d err=0 bn=0", s, h.String(), hexs(pl), cut, ok2))
+				ops = append(ops, fmt.Sprintf("r s=%d %s pl=%s trunc=%d ok=%d err=0 bn=0 at=%d", s, h.String(), hexs(pl), cut, ok2, r.Intn(5)))
 			}
 		case kind == 5: // application RTCP write
 			raw := c01RTCP(r, lssrcs, nil, false)
-			ops = append(ops, fmt.Sprintf("cw pk=%s bn=%d bf=%d", hexs(raw), r.Pick(len(raw), 0, 1), b01(r.Chance(1, faultP))))
+			ops = append(ops, fmt.Sprintf("cw pk=%s bn=%d bf=%d at=%d", hexs(raw), r.Pick(len(raw), 0, 1), b01(r.Chance(1, faultP)), r.Intn(5)))
 		case kind == 6 || kind == 8: // RTCP read
 			raw := c01RTCP(r, lssrcs, sentSeqs, rtxIntoFec)
 			ok := 1
@@ -983,7 +1052,7 @@ func c01Gen(r *Rng, tier string, idx int) Case { //nolint:gocognit,cyclop,mainti
 					ok = 0
 				}
 			}
-			ops = append(ops, fmt.Sprintf("cr data=%s ok=%d err=%d bn=%d", hexs(raw), ok, b01(r.Chance(1, faultP)), r.Pick(0, 0, 9, 1500)))
+			ops = append(ops, fmt.Sprintf("cr data=%s ok=%d err=%d bn=%d at=%d", hexs(raw), ok, b01(r.Chance(1, faultP)), r.Pick(0, 0, 9, 1500), r.Intn(5)))
 		case kind == 7:
 			ops = append(ops, fmt.Sprintf("adv ms=%d", r.Pick(1, 20, 100, 100, 1000, 3000, 30000)))
 		default:
